@@ -3,6 +3,7 @@ package main
 import (
 	"fmt"
 	"go/types"
+	"math"
 	"strconv"
 	"strings"
 
@@ -416,6 +417,15 @@ func init() {
 		n := &MapObj{id: it.cellID, entries: append([]mapEntry{}, m.m.entries...)}
 		return &IfaceV{t: iv.t, v: &MapV{m: n}}
 	}
+	intercepts["math.Pow"] = func(it *Interp, fn *ssa.Function, args []Value) Value {
+		return FloatV{math.Pow(args[0].(FloatV).f, args[1].(FloatV).f), 64}
+	}
+	// skip-list node heights are a performance detail: a constant height keeps the structure a sorted list
+	intercepts["(*github.com/couchbasedeps/fast-skiplist.SkipList).randLevel"] = func(it *Interp, fn *ssa.Function, args []Value) Value {
+		return it.ts.BV(1, 64)
+	}
+	intercepts["math/rand.NewSource"] = func(it *Interp, fn *ssa.Function, args []Value) Value { return &IfaceV{} }
+	intercepts["math/rand.New"] = func(it *Interp, fn *ssa.Function, args []Value) Value { return nilPtr() }
 	intercepts["time.Sleep"] = noop
 	intercepts["runtime.SetFinalizer"] = noop
 	intercepts["math/bits.Len64"] = nil
